@@ -178,6 +178,137 @@ def inputs(quick):
 
 
 # ----------------------------------------------------------------------------
+# SLHA inputs from every convergence regime of convert_to_onshell()
+# ----------------------------------------------------------------------------
+LADDER = [25, 50, 75, 100, 150, 200, 300, 400, 500, 600, 700, 800, 900, 1000, 1500, 2000, 4000]   # as cli_api c15iter
+BINS = [("~100", 75, 150), ("~300", 200, 400), ("~600", 500, 700), ("~900", 800, 1000)]
+COMBOS_SLOW = [(f, l, r_, fo, 0, u, 1) for f in range(5) for l in range(3) for r_ in (0, 1) for fo in (0, 1) for u in (0, 1)]
+
+
+def convergence_inputs(exe, root):
+    """deterministic scan: candidates = example-like SLHA point (pole masses given) over a tan(beta) ladder and
+    both signs of mu, and a family without chargino/neutralino pole masses (only the me2 iteration works) over
+    tan(beta) x smuon pole-mass degeneracy.  cli_api c15iter converts each with max_iterations = n for a ladder of
+    n; the iteration demand of a loop is the first n from which its output no longer changes.  One input per
+    regime (~100, ~300, ~600, ~900 iterations, > 1000 = not converged with the default) and loop is selected."""
+    s1 = dict(C.slha_points())["S1"]
+    cands = []
+    for tb in (2, 3, 4, 4.25, 4.5, 4.6, 4.7, 4.8, 4.9, 5, 5.25, 5.5, 6, 7, 8, 10, 12, 15, 20, 30, 50):
+        for sgn in (1, -1):
+            p = dict(s1); p["TB"] = float(tb); p["Mu"] = sgn * abs(p["Mu"]); p["MChi_3"] = -sgn * abs(p["MChi_3"])
+            cands.append(("tb%g:mu%s" % (tb, "+" if sgn > 0 else "-"), p))
+    for tb in (3, 5, 10, 20, 40, 60):
+        for dlt in (0.0005, 0.001, 0.002, 0.005, 0.01, 0.02, 0.05, 0.1):
+            p = dict(s1)
+            for k in ("MChi_1", "MChi_2", "MChi_3", "MChi_4", "MCha_1", "MCha_2"):
+                p[k] = 0.0
+            p["TB"] = float(tb); p["MSm_1"] = p["MSm_2"] * (1 - dlt)
+            cands.append(("nochipoles:tb%g:dMSm%g" % (tb, dlt), p))
+    d = os.path.join(root, "scan")
+    os.makedirs(d, exist_ok=True)
+    paths = []
+    for i, (nm, p) in enumerate(cands):
+        pth = os.path.join(d, "s%03d.in" % i)
+        with open(pth, "w") as fh:
+            fh.write(C.render_slha(p))
+        paths.append(pth)
+    res, err = C.run_harness(exe, "c15iter", paths, "I")
+    shutil.rmtree(d, ignore_errors=True)
+    if res is None:
+        raise InfraError("cli_api c15iter failed: %s" % err)
+    info = []
+    for (nm, p), r_ in zip(cands, res):
+        if "setup" in r_ or any(r_["n%d" % n].split(",")[0] != "OK" for n in LADDER):
+            continue
+        rows = {n: r_["n%d" % n].split(",") for n in LADDER}
+        fin = rows[LADDER[-1]]
+
+        def demand(idx):
+            for n in LADDER:
+                if all(rows[n][i] == fin[i] for i in idx):
+                    return n
+        info.append(dict(name=nm, p=p, mu_n=demand((1, 2, 3)), me2_n=demand((4,)),
+                         mu_flag=rows[1000][5] == "1", me2_flag=rows[1000][6] == "1"))
+    chosen, missing = [], []
+    for loop in ("mu", "me2"):
+        pool = info if loop == "mu" else [x for x in info if x["mu_n"] <= LADDER[0] and not x["mu_flag"]]
+        for tag, lo, hi in BINS:
+            c = [x for x in pool if lo <= x[loop + "_n"] <= hi and not x[loop + "_flag"] and (loop == "me2" or not x["me2_flag"])]
+            if c:
+                chosen.append(("conv:%s-loop%s:%s" % (loop, tag, c[0]["name"]), c[0]))
+            else:
+                missing.append("%s-loop%s" % (loop, tag))
+        c = [x for x in pool if x[loop + "_flag"]]
+        c_slow = [x for x in c if x[loop + "_n"] > 1000]
+        for tag, cc in ((">1000:stalled-or-unconverged", c), (">1000:still-changing", c_slow)):
+            if cc:
+                chosen.append(("conv:%s-loop%s:%s" % (loop, tag, cc[0]["name"]), cc[0]))
+            else:
+                missing.append("%s-loop%s" % (loop, tag))
+    ins, seen = [], set()
+    for nm, x in chosen:
+        if x["name"] in seen:
+            continue
+        seen.add(x["name"])
+        ins.append((nm, "slha", C.render_slha(x["p"]), COMBOS_SLOW))
+    summary = dict(candidates=len(cands), usable=len(info), selected=[nm for nm, _, _, _ in ins], regimes_not_found=missing,
+                   demand_histogram_mu_loop={str(n): sum(1 for x in info if x["mu_n"] == n) for n in LADDER if any(x["mu_n"] == n for x in info)},
+                   demand_histogram_me2_loop={str(n): sum(1 for x in info if x["me2_n"] == n) for n in LADDER if any(x["me2_n"] == n for x in info)})
+    return ins, summary
+
+
+# ----------------------------------------------------------------------------
+# totals reported by the API = sums of the public part functions (both resummation settings)
+# ----------------------------------------------------------------------------
+IDENT_MSSM = [
+    ("1L", "a1l", ["chi0", "chipm"]),
+    ("2L", "a2l", ["fsf", "ph_chipm", "ph_chi0", "a_sf", "a_cha"]),
+    ("2L-fermion/sfermion", "fsf", ["ap2_whnu", "ap2_whmul", "ap2_bhmul", "ap2_bhmur", "ap2_bmulmur"]),
+    ("1L-approximation", "ap1_sum", ["ap1_whnu", "ap1_whmul", "ap1_bhmul", "ap1_bhmur", "ap1_bmulmur"]),
+    ("1L-non-resummed", "a1l_nr", ["nr_chi0", "nr_chipm"]),
+    ("2L-non-resummed", "a2l_nr", ["nr_fsf", "nr_ph_chipm", "nr_ph_chi0", "nr_a_sf", "nr_a_cha"]),
+]
+IDENT_THDM = [
+    ("2L", "a2l", ["a2l_B", "a2l_F"]),
+    ("2L-bosonic", "a2l_B", ["B_EWadd", "B_nonYuk", "B_Yuk"]),
+    ("2L-fermionic", "a2l_F", ["F_charged", "F_neutral"]),
+]
+
+
+def parts_sum(h, parts):
+    vs = [C.hval(h.get(k)) for k in parts]
+    if any(v is None for v in vs):
+        return None, None
+    tot = vs[0]
+    for v in vs[1:]:
+        tot = tot + v
+    return tot, sum(abs(v) for v in vs)
+
+
+def check_api_totals(typ, h, stats):
+    """-> list of (key, what): every total of the API against the sum of its public parts (16 ulp of sum|parts|)"""
+    fam = "THDM" if typ == "thdm" else "MSSM"
+    out = []
+    for tag, tk, parts in (IDENT_THDM if typ == "thdm" else IDENT_MSSM):
+        tot = C.hval(h.get(tk))
+        sm, mag = parts_sum(h, parts)
+        if tot is None or sm is None or not (math.isfinite(tot) and math.isfinite(sm)):
+            continue
+        stats["api_totals_vs_parts"] = stats.get("api_totals_vs_parts", 0) + 1
+        if abs(tot - sm) > 16 * 2.0 ** -52 * mag:
+            out.append(("%s:api:total:%s" % (fam, tag), "API total %s = %r but the sum of its parts %s = %r (diff %.3e, %.1e of sum|parts|)"
+                        % (tk, tot, "+".join(parts), sm, abs(tot - sm), abs(tot - sm) / mag if mag else 0.0)))
+    if typ == "slha":
+        e, a1, a2 = C.hval(h.get("a12_explicit_defaults")), C.hval(h.get("a1l")), C.hval(h.get("a2l"))
+        if e is not None and a1 is not None and a2 is not None and math.isfinite(e) and math.isfinite(a1 + a2):
+            stats["api_default_vs_explicit"] = stats.get("api_default_vs_explicit", 0) + 1
+            if e != a1 + a2:
+                out.append(("MSSM-slha:api:conversion-defaults", "convert_to_onshell() gives a_mu %r, convert_to_onshell(1e-8, 1000) "
+                            "(the documented defaults spelled out) gives %r" % (a1 + a2, e)))
+    return out
+
+
+# ----------------------------------------------------------------------------
 # detailed report: generic parser
 # ----------------------------------------------------------------------------
 PCT_RE = re.compile(r"\(\s*(-?[\d.]+|-?nan|-?inf)\s*%(?:\s+of\s+([^)]*))?\)")
@@ -321,6 +452,15 @@ def check_detailed(typ, out, h, fails, stats):
             fails.append(("%s:detailed:value:%s/%s" % (fam, it["para"] or "-", it["label"] or "-"),
                           "detailed report prints %s for '%s / %s', API gives %r (%s)"
                           % (it["val"], it["para"], it["label"], api, k)))
+    # (b') the totals "without tan(beta) resummation" against the sums of the part functions on the copy
+    # converted to tree-level Yukawa couplings
+    for k, parts in (("a1l_nr", ["nr_chi0", "nr_chipm"]), ("a2l_nr", ["nr_fsf", "nr_ph_chipm", "nr_ph_chi0", "nr_a_sf", "nr_a_cha"])):
+        sm, mag = parts_sum(h, parts)
+        if k in bykey and sm is not None and math.isfinite(sm) and math.isfinite(C.pnum(bykey[k]["val"])):
+            stats["detailed_nonresummed_vs_parts"] = stats.get("detailed_nonresummed_vs_parts", 0) + 1
+            if abs(C.pnum(bykey[k]["val"]) - sm) > C.half_ulp(bykey[k]["val"]) * (1 + 1e-6) + 16 * 2.0 ** -52 * mag:
+                fails.append(("%s:detailed:non-resummed-total:%s" % (fam, k),
+                              "'%s' prints %s, the parts on the non-resummed model sum to %r" % (bykey[k]["para"], bykey[k]["val"], sm)))
     # (c) sum lines = sum of the printed parts above them
     for it in items:
         if it["parts"]:
@@ -527,9 +667,15 @@ def run_input(job):
     if hs is None:
         return dict(name=name, infra="cli_api c15 failed on %s: %s" % (name, err))
     n_ref = n_ok = 0
+    api_seen = set()
     for n, c in enumerate(combos):
         fmt, loop, resum, force, verbose, unc, run = c
         h = hs[n]
+        for k_, w_ in check_api_totals(typ, h, stats):
+            if k_ not in api_seen:
+                api_seen.add(k_)
+                fails.append((k_, "%s [%s, config fmt=%d loop=%d resum=%d force=%d verbose=%d unc=%d running=%d]"
+                              % (w_, name, fmt, loop, resum, force, verbose, unc, run), c))
         want = "%d,%d,%d,%d,%d,%d,%d" % c
         if not h.get("setup", "").startswith("EXC") and h.get("cfg") != want:
             return dict(name=name, infra="harness read configuration %s, written %s (%s)" % (h.get("cfg"), want, name))
@@ -563,6 +709,23 @@ def run_input(job):
         n_ok += 1
         res = {}
         cf = []
+        if typ != "thdm":
+            # exit status and convergence warnings as the API object reports them
+            want_rc = 1 if h.get("problem") == "1" else 0
+            if rc != want_rc:
+                cf.append(("%s:fmt%d:exit-status-vs-api" % (fam, fmt), "exit status %d, the API model has have_problem() = %s" % (rc, h.get("problem"))))
+            wtxt = " ".join(C.unesc(h.get("warnings", "-")).split())
+            shown = " ".join(errtxt.split()) + " | " + " | ".join(" ".join(tk[1:]) for tk in C.block_entries(out, "SPINFO") if tk[0] == "3")
+            stats["warning_text_compared"] = stats.get("warning_text_compared", 0) + 1
+            if h.get("warning") == "1":
+                if wtxt not in " ".join(errtxt.split()):
+                    cf.append(("%s:fmt%d:warning-text" % (fam, fmt), "API warning %r is not on stderr (%r)" % (wtxt, errtxt[-300:])))
+                if fmt >= 2 and wtxt not in shown.split(" | ", 1)[1]:
+                    cf.append(("%s:fmt%d:warning-text" % (fam, fmt), "API warning %r is not in SPINFO[3]" % wtxt))
+            else:
+                for phrase in ("conversion for Mu, M1, M2 failed", "conversion for me2 failed"):
+                    if phrase in shown:
+                        cf.append(("%s:fmt%d:warning-unexpected" % (fam, fmt), "program reports '%s' but the API model has no warning" % phrase))
         if fmt == 0:
             ls = [x for x in out.split("\n") if x.strip()]
             if len(ls) != 1 or not C.SCI_RE.fullmatch(ls[0].strip()):
@@ -654,6 +817,16 @@ def run_all(ctx, ins):
 
 def run(ctx):
     ins = inputs(ctx.quick)
+    build.ensure("plain")
+    sroot = C.scratch("c15scan")
+    try:
+        conv, summary = convergence_inputs(C.harness_exe(), sroot)
+    finally:
+        shutil.rmtree(sroot, ignore_errors=True)
+    ctx.note("convergence_regime_scan", summary)
+    if not any(("mu-loop~600" in nm or "mu-loop~900" in nm) for nm, _, _, _ in conv):
+        ctx.cap("no SLHA input needing 500-1000 Mu/M1/M2 iterations found by the scan")
+    ins += conv
     res = run_all(ctx, ins)
     tot = {}
     never = []
@@ -685,7 +858,10 @@ def run(ctx):
     ctx.assumptions += [
         "the harness reads the file with the same GM2_slha_io reader as the program (reader semantics are C13's subject)",
         "labels of the detailed report are mapped to API functions by a table; lines with unknown labels are only checked generically (counted in detailed_unmapped_lines)",
-        "inputs that are refused under a configuration are checked for agreement of the refusal only"]
+        "inputs that are refused under a configuration are checked for agreement of the refusal only",
+        "convergence regimes of convert_to_onshell() are found by a scan through the library itself (iteration demand = first "
+        "max_iterations from which the converted parameters no longer change); regimes the scan does not reach are listed in "
+        "convergence_regime_scan.regimes_not_found"]
     return ctx.finish(
         "inputs = 3 examples + every point of test/test_points.sh + %d lattice points; per input the full product "
         "5 formats x 3 loop orders x resummation x force x verbose x uncertainty x running = 480, GM2CalcConfig block rewritten; "
